@@ -194,9 +194,11 @@ def make_distance_matrix_from_adjacency_matrix(AG):
         representation of G based on its shortest path lengths.
     """
     # Convert adjacency matrix to SciPy format if needed.
-    if not sps.issparse(AG) and not isinstance(AG, np.ndarray):
-        AG = np.asarray(AG)
-    elif sps.issparse(AG):
+    if not sps.issparse(AG):
+        # (C-contiguous: scipy's dense shortest-path routines return garbage
+        # for Fortran-ordered arrays and strided views)
+        AG = np.ascontiguousarray(AG)
+    else:
         # scipy.sparse.csgraph only handles the csr, csc and lil formats, and
         # with unweighted=True it takes explicitly stored zeros for edges.
         AG = sps.csr_matrix(AG, copy=True)
